@@ -127,21 +127,31 @@ func isIdent(b byte) bool {
 	return b == '_' || (b >= 'a' && b <= 'z') || (b >= 'A' && b <= 'Z') || (b >= '0' && b <= '9')
 }
 
-func genRepo(r *gen.Rand, idx int, manyBranches bool) repoSpec {
+// branch names are drawn from one small pool and listed in a shuffled order, so that repositories of one case
+// routinely share a branch name at DIFFERENT positions of their branch lists (and hence different mask bits):
+// whatever merge keeps per builder instead of per repository then shows.
+var branchPool = []string{"HEAD", "main", "release", "dev", "b1", "b2"}
+
+func genRepo(r *gen.Rand, idx int, manyBranches bool, forceBranches []string) repoSpec {
 	rs := repoSpec{
 		Name: gen.Pick(r, []string{"repo", "github.com/org/proj", "r", "x-y.z"}) + strconv.Itoa(idx),
 		ID:   uint32(100 + idx), Prio: r.Intn(4),
 	}
-	nb := r.Range(1, 4)
-	if manyBranches {
-		nb = r.Range(33, 40)
-	}
-	for i := 0; i < nb; i++ {
-		if i == 0 {
-			rs.Branches = append(rs.Branches, "HEAD")
-		} else {
+	switch {
+	case forceBranches != nil:
+		rs.Branches = append(rs.Branches, forceBranches...)
+	case manyBranches:
+		nb := r.Range(33, 40)
+		for i := 0; i < nb; i++ {
 			rs.Branches = append(rs.Branches, fmt.Sprintf("b%d", i))
 		}
+		// the pool's names sit at high, shuffled positions
+		gen.Shuffle(r, rs.Branches)
+		rs.Branches[nb-1], rs.Branches[nb-2] = "HEAD", "main"
+	default:
+		pool := append([]string(nil), branchPool...)
+		gen.Shuffle(r, pool)
+		rs.Branches = pool[:r.Range(1, 4)]
 	}
 	if r.Chance(1, 3) {
 		rs.SubRepos = []string{"sub"}
@@ -177,7 +187,21 @@ func genCase(r *gen.Rand, i int) caseSpec {
 		n = 4
 	}
 	for k := 0; k < n; k++ {
-		cs.Repos = append(cs.Repos, genRepo(r, k, many && k == 0))
+		var force []string
+		if i == 0 && k < 2 {
+			// every run: two simple shards whose repositories list the same branches in opposite order
+			force = [][]string{{"main", "release", "HEAD"}, {"HEAD", "release", "main"}}[k]
+		}
+		rs := genRepo(r, k, many && k == 0, force)
+		if force != nil {
+			// one document on a single shared branch, one on two of them
+			for len(rs.Docs) < 2 {
+				rs.Docs = append(rs.Docs, genDoc(r, len(rs.Docs), rs.Branches, rs.SubRepos))
+			}
+			rs.Docs[0].Branches = []string{"main"}
+			rs.Docs[1].Branches = []string{"release", "HEAD"}
+		}
+		cs.Repos = append(cs.Repos, rs)
 	}
 	if many {
 		cs.Class = "many-branches"
@@ -548,6 +572,9 @@ func queries(cs caseSpec) []query.Q {
 		&query.Substring{Pattern: "NOT-INDEXED", Content: true, CaseSensitive: true},
 		&query.Branch{Pattern: "b1"},
 		&query.Branch{Pattern: "HEAD", Exact: true},
+		&query.Branch{Pattern: "main", Exact: true},
+		&query.Branch{Pattern: "release"},
+		&query.Branch{Pattern: "dev"},
 		&query.Language{Language: "Go"},
 		&query.Language{Language: "Weird"},
 		&query.Language{Language: "Text"},
@@ -610,7 +637,13 @@ func clip(s string) string {
 }
 
 // compare searches and List over two shard sets
-func e2e(cs caseSpec, before, after []string) (string, string) {
+func e2e(cs caseSpec, before, after []string) (msg string, key string) {
+	// a search over a corrupted output shard may panic inside the searcher: that is a finding, not a harness failure
+	defer func() {
+		if r := recover(); r != nil {
+			msg, key = fmt.Sprintf("PANIC while searching / listing: %v", r), "e2e-panic"
+		}
+	}()
 	openAll := func(paths []string) ([]zoekt.Searcher, error) {
 		var ss []zoekt.Searcher
 		for _, p := range paths {
@@ -913,6 +946,19 @@ func main() {
 			w.Emit(c)
 		}
 		// distribution of what the generated inputs exercise
+		pos := map[string]int{}
+		shared := false
+		for _, rs := range cs.Repos {
+			for i, b := range rs.Branches {
+				if j, ok := pos[b]; ok && j != i {
+					shared = true
+				}
+				pos[b] = i
+			}
+		}
+		if shared {
+			w.Count("cases-with-a-branch-name-at-different-positions-in-two-repositories", 1)
+		}
 		for _, rs := range cs.Repos {
 			w.Count("repos", 1)
 			if rs.Tomb {
